@@ -1,7 +1,7 @@
 """C03 -- allocation candidates are exactly the combinations the request describes (E-enum).
 
 Scope-enumerated states (vp.scope: 7 base topologies x decoration deltas) x a query grammar
-(vp.acq: 10 base queries x every set of <= k filter deviations), every (state, query) executed on
+(vp.acq: 17 base queries x every set of <= k filter deviations), every (state, query) executed on
 the real service and compared, as a set of (allocations, mappings), with the brute-force oracle
 vp.oracles_ac.ac_oracle computed from the raw rows.
 """
@@ -199,7 +199,7 @@ def run(ctx):
         'distinct_nontrivial': len(nontrivial),
         'rule': 'states = scope enumerator (7 base topologies incl. nested, sharing, nested + '
                 'sharing through a non-root member, a nested sharing provider) x decoration '
-                'deltas; queries = 10 base queries (unsuffixed 1-3 classes, 1-3 suffixed groups, '
+                'deltas; queries = 17 base queries (unsuffixed 1-3 classes, 1-3 suffixed groups, a class repeated in neighbouring and non-neighbouring groups, same_subtree given twice, '
                 'mixed, overlapping classes) x every set of <= k deviations (required / forbidden '
                 '/ in: traits, member_of / in: / ! aggregates, in_tree, amounts, group_policy, '
                 'same_subtree subsets, a resourceless group, root_required) at the versions where '
